@@ -48,6 +48,7 @@ CLAUSE_TEXT = {
     807: "message act that ran did not send exactly one message", 808: "child's created message before its parent's",
     1901: "timeout rule fired before the task had been open for the configured duration", 1902: "timeout rule fired twice for one task",
     1903: "timeout rule fired for a task that is already terminal",
+    1904: "a due timeout rule of an open task did not fire at the tick (no later than one tick after the limit)",
     901: "task creation index out of order", 902: "transition does not start from the task's recorded state", 903: "action result without operation",
 }
 
@@ -326,6 +327,14 @@ def run(prop, tier, seed):
     limit_stats = None
     if prop == 'C19':
         nontrivial = len([cid for cid in cases if any(l.startswith('F ') for l in i.get(cid, []))])
+        # "no later than one tick after the limit": the traces agree up to a tick at which the model -- where a due rule of an
+        # open task fires at the tick, C19_fires_when_due -- fires a rule and the implementation goes on without firing any:
+        # that history is the failing input (the trace oracle alone cannot see a firing that is missing)
+        for d in dis:
+            if (d['model'] or '').startswith('F ') and not (d['impl'] or '').startswith('F '):
+                p_ = d['model'].split(' ')
+                violations.append({'class': '1904', 'detail': f"case {d['case']['id']}: {CLAUSE_TEXT[1904]} (task #{p_[1]}, rule {p_[2]}: due at the tick of {p_[3]}, open since {p_[4]}, limit {p_[5]} ms; the implementation continues with `{d['impl']}`) [1904]",
+                                   'case': {'kind': 'engine', 'case': d['case'], 'clause': 1904, 'task': int(p_[1]) if p_[1].isdigit() else 0}})
         ldis, limit_stats = limit_check(tier, seed, os.path.join(res['dir'], 'limit'))
         violations += ldis
         # a reload between two operations changes no firing: same histories with the process dropped from the cache and
